@@ -1,2 +1,46 @@
-(* props/C16.v — placeholder until the theorems of this property are added. *)
-From Prophy Require Import Bytes Schema Layout Wire PcModel.
+(* props/C16.v — multi-file schemas with includes equal their single-file concatenation.
+   model/PcFiles.v follows prophyc/file_processor.py (process_main / process_leaf / _process_file with the table
+   of processed files, None marking a file in progress) under a content processor that resolves every include as
+   it is met and fails as a whole when an include fails (the prophy parser). Proved, for every file system,
+   every sequence of main files and whatever was processed before: a successful result is the include tree of
+   the file ([Flat]: every include directive is present with the full tree of the included file — nothing is
+   dropped), its definitions are those of the text with every include expanded in place ([Inline]), and no file
+   is handed to the content processor twice in one run. A missing file, and a file that is met again while it
+   is being processed, give the failures EMissing / ECyclic (by definition of the model, tied by the
+   correspondence run). Not modelled: directory search (-I, working directory) — files are identified by their
+   resolved path —, the isar front-end's own include handling (KF-M) and the generators' treatment of Include
+   nodes; those are compared end to end by checks/C16.py. Fuel: include depth; exhaustion is the outcome EFuel,
+   never a result. *)
+From Coq Require Import List Bool Arith.
+From Prophy Require Import PcFiles PcFilesFacts.
+Import ListNotations.
+
+Theorem C16_result_is_the_include_tree :
+  forall fs fuel ps st' rs i p ns,
+    proc_mains fs fuel st0 ps = (st', rs) -> nth_error ps i = Some p -> nth_error rs i = Some (FOk ns) ->
+    Flat fs p ns.
+Proof. intros fs fuel ps st' rs i p ns H. intros P R. exact (proc_mains_sound fs fuel ps st0 st' rs (MemoOk_nil fs) H i p ns P R). Qed.
+Print Assumptions C16_result_is_the_include_tree.
+
+Theorem C16_definitions_of_the_concatenation :
+  forall fs p ns, Flat fs p ns -> Inline fs p (defs_of ns).
+Proof. exact Flat_inline. Qed.
+Print Assumptions C16_definitions_of_the_concatenation.
+
+Theorem C16_each_file_processed_once :
+  forall fs fuel ps st' rs, proc_mains fs fuel st0 ps = (st', rs) -> NoDup (f_log st').
+Proof. intros fs fuel ps st' rs H. exact (proc_mains_log fs fuel ps st0 st' rs LogInv_st0 H). Qed.
+Print Assumptions C16_each_file_processed_once.
+
+(* non-vacuity: a diamond (0 includes 1 and 2, both include 3), then file 3 alone; a cycle; a missing include *)
+Example C16_example :
+  let fs := fun p => match p with
+                     | 0 => Some [IInc 1; IInc 2; IDef 10] | 1 => Some [IInc 3; IDef 11]
+                     | 2 => Some [IDef 12; IInc 3] | 3 => Some [IDef 13]
+                     | 4 => Some [IInc 5] | 5 => Some [IDef 1; IInc 4] | 6 => Some [IInc 9]
+                     | _ => None end in
+  (let '(st, rs) := proc_mains fs 8 st0 [0; 3] in
+   rs = [FOk [NInc 1 [NInc 3 [NDef 13]; NDef 11]; NInc 2 [NDef 12; NInc 3 [NDef 13]]; NDef 10]; FOk [NDef 13]]
+   /\ f_log st = [0; 1; 3; 2]) /\
+  snd (proc_mains fs 8 st0 [4]) = [FErr (ECyclic 4)] /\ snd (proc_mains fs 8 st0 [6]) = [FErr (EMissing 9)].
+Proof. vm_compute. repeat split; reflexivity. Qed.
